@@ -190,4 +190,20 @@ extern struct WOPNInstrument verif_env_ins_win[1];
 
 #endif /* !VERIF_SEGMENTS */
 
+/* ---------------------------------------------------------------- OPN2::noteOn (opnmidi_opn2.cpp) ---------- */
+/* Both loops halve a finite non-negative double.  The first is bounded by its integer counter; the second strictly
+ * decreases the integer part of hertz (hertz >= 2036.75 > 2, so floor(hertz / 2) < floor(hertz)). */
+#ifndef VERIF_LOOP_opn2_noteon_octave
+#define VERIF_LOOP_opn2_noteon_octave \
+    __CPROVER_assigns(hertz, octave) \
+    __CPROVER_loop_invariant(octave <= 0x3800 && (octave & 0x7FF) == 0 && hertz >= 0.0 && hertz <= 1.0e15) \
+    __CPROVER_decreases(0x3800 - octave)
+#endif
+#ifndef VERIF_LOOP_opn2_noteon_mul
+#define VERIF_LOOP_opn2_noteon_mul \
+    __CPROVER_assigns(hertz, mul_offset) \
+    __CPROVER_loop_invariant(octave <= 0x3800 && (octave & 0x7FF) == 0 && hertz >= 0.0 && hertz <= 1.0e15) \
+    __CPROVER_decreases((unsigned long)hertz)
+#endif
+
 #endif
